@@ -539,11 +539,11 @@ Qed.
 
 (* -- the class D11 ----------------------------------------------------------------- *)
 
+(* (with the take-address arm of the pinned source there was a third conjunct under
+   ad = 1: target <> Pointer ct; see [no_solution_pinned]) *)
 Definition no_solution (ct target : vt) (ad : N) : bool :=
   is_slice_pointer ct &&
-  (N.eqb ad 0
-   || (N.eqb ad 1 && negb (vt_eqb ct target)
-       && negb (opt_vt_eqb (get_pointee_type target) ct))).
+  (N.eqb ad 0 || (N.eqb ad 1 && negb (vt_eqb ct target))).
 
 Lemma slice_pointer_target_depth e target :
   vt_eqb (VSlicePointer e) target = true -> N.eqb (pointer_depth target) 0 = false.
@@ -556,14 +556,19 @@ Proof.
   rewrite pointer_depth_pointer. apply N.eqb_neq. lia.
 Qed.
 
+Ltac unfold_finish :=
+  unfold autoderef_finish, autoderef_finish_pinned, autoderef_finish_gen;
+  cbn [address_arm_cond].
+
 Lemma finish_panic_iff taken ct target ad s :
   autoderef_finish taken ct target ad = ADPanic s <->
   s = 3%N /\ no_solution ct target ad = true.
 Proof.
-  unfold autoderef_finish, no_solution.
+  unfold_finish. unfold no_solution.
   destruct (is_slice_pointer ct) eqn:Esp.
   - destruct ct; try discriminate Esp. rename ct into e.
     change (pointer_depth (VSlicePointer e)) with 1%N.
+    change (1 + 1)%N with 2%N. change (2 + 1)%N with 3%N.
     cbn [get_viewee_type opt_vt_eqb can_coerce_address_into andb is_slice_pointer].
     rewrite !andb_false_r.
     destruct (N.eqb_spec ad 0) as [->|Hn0].
@@ -577,17 +582,14 @@ Proof.
         now rewrite (slice_pointer_coerce_depth _ _ E). }
       rewrite H1, H3. cbn. split; [intros [= <-]; auto|intros [-> _]; reflexivity].
     + cbn [andb orb].
-      assert (Hlt : N.ltb 0 ad = true) by (apply N.ltb_lt; lia). rewrite Hlt. cbn [andb].
       destruct (N.eqb_spec ad 1) as [->|Hn1].
-      * cbn [andb]. destruct (vt_eqb (VSlicePointer e) target); cbn [negb andb];
-          [split; [discriminate|intros [_ H]; discriminate]|].
-        destruct (opt_vt_eqb (get_pointee_type target) (VSlicePointer e)); cbn [negb];
+      * cbn [andb N.eqb Pos.eqb]. destruct (vt_eqb (VSlicePointer e) target); cbn [negb andb];
           [split; [discriminate|intros [_ H]; discriminate]|].
         cbn. split; [intros [= <-]; auto|intros [-> _]; reflexivity].
       * cbn [andb].
-        destruct (opt_vt_eqb (get_pointee_type target) (VSlicePointer e));
+        destruct (N.eqb ad 2 && opt_vt_eqb (get_pointee_type target) (VSlicePointer e));
           [split; [discriminate|intros [_ H]; discriminate]|].
-        destruct (N.leb_spec (2 + 1) ad) as [Hle|Hgt]; [split; [discriminate|intros [_ H]; discriminate]|].
+        destruct (N.leb_spec 3 ad) as [Hle|Hgt]; [split; [discriminate|intros [_ H]; discriminate]|].
         assert (ad = 2%N) as -> by lia. cbn.
         split; [discriminate|intros [_ H]; discriminate].
   - cbn [andb].
@@ -655,7 +657,7 @@ Qed.
 
 (* In source terms: the reference ends in a slice pointer (a parameter `data: &[]T`, or a
    member / element of that type cannot exist) and is used bare, or with one `&` where
-   something else than `&[]T` itself is expected. *)
+   anything else than `&[]T` itself is expected. *)
 Corollary autoderef_no_solution_shape mt known target steps ad :
   autoderef_panics mt known target steps ad = true ->
   exists e, final_type mt known steps = Some (VSlicePointer e) /\ (ad = 0 \/ ad = 1)%N.
@@ -665,8 +667,7 @@ Proof.
   destruct ct; try discriminate Hsp. eexists; split; [reflexivity|].
   apply orb_true_iff in H as [H|H].
   - left. now apply N.eqb_eq.
-  - right. apply andb_true_iff in H as [H _]. apply andb_true_iff in H as [H _].
-    now apply N.eqb_eq.
+  - right. apply andb_true_iff in H as [H _]. now apply N.eqb_eq.
 Qed.
 
 Definition no_members (m : N) : option vt := None.
@@ -790,12 +791,16 @@ Lemma finish_coerced taken ct target ad tk ta dt c :
   ((ta = false /\ dt = ct /\ can_coerce_into ct target = true) \/
    (ta = true /\ dt = VPointer ct /\ can_coerce_address_into ct target = true)).
 Proof.
-  unfold autoderef_finish.
+  unfold_finish.
   repeat match goal with
          | |- context [if ?b then _ else _] => destruct b eqn:?
          end; intros [= <- <- <- <-]; split; try reflexivity.
-  - left. repeat split. match goal with H : _ && _ = true |- _ => apply andb_true_iff in H as [_ H]; exact H end.
-  - right. repeat split. match goal with H : _ && _ = true |- _ => apply andb_true_iff in H as [_ H]; exact H end.
+  - left. repeat split.
+    match goal with H : _ && can_coerce_into _ _ = true |- _ =>
+      apply andb_true_iff in H as [_ H]; exact H end.
+  - right. repeat split.
+    match goal with H : _ && can_coerce_address_into _ _ = true |- _ =>
+      apply andb_true_iff in H as [_ H]; exact H end.
 Qed.
 
 (* Every Autocoerce that autoderef itself builds reaches an implemented arm of
@@ -929,8 +934,9 @@ Lemma finish_eq_ad0 taken ct :
   | ADPanic _ => is_slice_pointer ct = true
   end.
 Proof.
-  unfold autoderef_finish.
+  unfold_finish.
   change (N.eqb 0 0) with true. change (N.eqb 0 1) with false. change (N.ltb 0 0) with false.
+  destruct (N.eqb_spec 0 (1 + pointer_depth ct)) as [He|_]; [lia|].
   cbn [andb].
   destruct (N.eqb (pointer_depth (fully_dereferenced ct)) 0 && vt_eqb ct (fully_dereferenced ct)) eqn:E1.
   { apply andb_true_iff in E1 as [_ E1]. apply vt_eqb_eq in E1. auto. }
@@ -942,7 +948,6 @@ Proof.
   { apply andb_true_iff in E3 as [_ E3]. pose proof (coerce_source_direct _ _ E3) as Hd.
     rewrite Hd, coerce_irrefl in E3. discriminate. }
   destruct (N.leb_spec (2 + pointer_depth ct) 0) as [Hle|_]; [lia|].
-  destruct (N.eqb_spec 0 (1 + pointer_depth ct)) as [He|_]; [lia|].
   destruct (is_slice_pointer ct); [reflexivity|]. cbn [N.to_nat wrap_pointers]. auto.
 Qed.
 
@@ -1077,8 +1082,9 @@ Proof.
     now apply direct_autoderef_into. }
   assert (Hfd : fully_dereferenced ct = ct) by (destruct ct; try discriminate Hrun; reflexivity).
   assert (Hview : get_viewee_type ct = None) by (destruct ct; try discriminate Hrun; reflexivity).
-  unfold autoderef_finish. rewrite Hview.
+  unfold_finish. rewrite Hview.
   change (N.eqb 0 0) with true. change (N.eqb 0 1) with false. change (N.ltb 0 0) with false.
+  destruct (N.eqb_spec 0 (1 + pointer_depth ct)) as [He|_]; [lia|].
   cbn [andb opt_vt_eqb]. rewrite andb_false_r.
   destruct (N.eqb (pointer_depth y) 0 && vt_eqb ct y) eqn:E1.
   { apply andb_true_iff in E1 as [_ E1]. cbn [result_type]. intros [= <-].
@@ -1086,7 +1092,6 @@ Proof.
   destruct (N.eqb (pointer_depth y) 0 && can_coerce_into ct y) eqn:E3.
   { cbn [result_type]. intros [= <-]. apply equals_refl. }
   destruct (N.leb_spec (2 + pointer_depth ct) 0) as [Hle|_]; [lia|].
-  destruct (N.eqb_spec 0 (1 + pointer_depth ct)) as [He|_]; [lia|].
   destruct (is_slice_pointer ct) eqn:Esp; [discriminate|].
   cbn [result_type N.to_nat wrap_pointers]. rewrite Hfd. intros [= <-].
   destruct Hcases as [H|H]; [exact H|].
@@ -1166,13 +1171,82 @@ Example promise_refuted_address_of_pointer_to_array :
 Proof. repeat split. Qed.
 
 (* `&&&a` with a: i32 where &i32 is expected: &&&i32 can_autoderef_into &i32 (through
-   can_subautoderef_into), and the arm :2907 only asks for address_depth > 0: the two
-   excess `&` are dropped instead of E538 AddressOfTemporaryAddress *)
-Example excess_addresses_accepted :
+   can_subautoderef_into), so &i32 is the target.  The take-address arm (:2907, repaired
+   source :2916) now asks for address_depth == 1 + pointer_depth: the excess `&` are
+   E538 AddressOfTemporaryAddress.  With the condition of the pinned source
+   (address_depth > 0) they were dropped. *)
+Example excess_addresses_rejected :
   type_of_reference no_members i32 [] 3 = Some (VPointer (VPointer (VPointer i32))) /\
   deref_target (VPointer (VPointer (VPointer i32))) (Some (VPointer i32)) = VPointer i32 /\
-  autoderef no_members i32 (VPointer i32) [] 3 = ADOk [] true (VPointer i32) None /\
-  autoderef no_members i32 (VPointer (VPointer (VPointer i32))) [] 3 = ADError E538.
+  autoderef no_members i32 (VPointer i32) [] 3 = ADError E538 /\
+  autoderef no_members i32 (VPointer (VPointer (VPointer i32))) [] 3 = ADError E538 /\
+  autoderef no_members i32 (VPointer i32) [] 1 = ADOk [] true (VPointer i32) None.
+Proof. repeat split. Qed.
+
+Example excess_addresses_accepted_pinned :
+  autoderef_pinned no_members i32 (VPointer i32) [] 3 = ADOk [] true (VPointer i32) None.
+Proof. reflexivity. Qed.
+
+(* -- what the repair buys -------------------------------------------------------------- *)
+
+(* Every result that takes an address without a coercion takes exactly one address more
+   than the type the steps end at has pointers; with a coercion (:2916 / :2925, unchanged)
+   only address_depth > 0 is known. *)
+Theorem finish_take_address taken ct target ad tk dt c :
+  autoderef_finish taken ct target ad = ADOk tk true dt c ->
+  tk = taken /\ dt = VPointer ct /\
+  match c with
+  | None => ad = (1 + pointer_depth ct)%N
+  | Some c' => c' = target /\ (0 < ad)%N /\ can_coerce_address_into ct target = true
+  end.
+Proof.
+  unfold_finish.
+  repeat match goal with
+         | |- context [if ?b then _ else _] => destruct b eqn:?
+         end; intros [= <- <- <-]; (split; [reflexivity|split; [reflexivity|]]).
+  - match goal with H : N.eqb ad _ && _ = true |- _ => apply andb_true_iff in H as [H _];
+      now apply N.eqb_eq in H end.
+  - match goal with H : N.ltb 0 ad && _ = true |- _ => apply andb_true_iff in H as [H1 H2];
+      apply N.ltb_lt in H1; auto end.
+  - match goal with H : N.eqb ad (1 + _) = true |- _ => now apply N.eqb_eq in H end.
+Qed.
+
+Theorem autoderef_take_address mt known target steps ad tk dt :
+  autoderef mt known target steps ad = ADOk tk true dt None ->
+  exists ct dropped,
+    autoderef_loop mt max_num_autoderef_steps known steps = LoopDone tk ct dropped /\
+    dt = VPointer ct /\ ad = (1 + pointer_depth ct)%N.
+Proof.
+  unfold autoderef.
+  destruct (autoderef_loop mt max_num_autoderef_steps known steps) as [taken ct rest|s];
+    [|discriminate].
+  intros H. apply finish_take_address in H as (-> & -> & ->). eauto.
+Qed.
+
+(* the pinned arm did not have this property *)
+Example take_address_pinned_refuted :
+  exists taken ct target ad tk dt,
+    autoderef_finish_pinned taken ct target ad = ADOk tk true dt None /\
+    ad <> (1 + pointer_depth ct)%N.
+Proof.
+  exists [], i32, (VPointer i32), 3%N, [], (VPointer i32). split; [reflexivity|discriminate].
+Qed.
+
+(* the class D11 of the pinned source had one more exception under address_depth 1 *)
+Definition no_solution_pinned (ct target : vt) (ad : N) : bool :=
+  is_slice_pointer ct &&
+  (N.eqb ad 0
+   || (N.eqb ad 1 && negb (vt_eqb ct target)
+       && negb (opt_vt_eqb (get_pointee_type target) ct))).
+
+(* `&data` with data: &[]i32 where the (ill-formed) type &&[]i32 is the target: the pinned
+   arm took the address, the repaired one leaves it to the "no solution" panic *)
+Example no_solution_differs_from_pinned :
+  let sp := VSlicePointer i32 in
+  autoderef_pinned no_members sp (VPointer sp) [] 1 = ADOk [] true (VPointer sp) None /\
+  autoderef no_members sp (VPointer sp) [] 1 = ADPanic 3 /\
+  is_wellformed (VPointer sp) = false /\
+  no_solution_pinned sp (VPointer sp) 1 = false /\ no_solution sp (VPointer sp) 1 = true.
 Proof. repeat split. Qed.
 
 (* ======================================================================= *)
@@ -1337,3 +1411,5 @@ Print Assumptions promise_direct_ad0.
 Print Assumptions loop_steps_reach.
 Print Assumptions deep_pointer_type_exhausts_budget.
 Print Assumptions elaborate_is_autoderef.
+Print Assumptions finish_take_address.
+Print Assumptions autoderef_take_address.
